@@ -310,7 +310,7 @@ static void run_case( const std::vector<Toks>& ops, FILE* out )
             }
             fprintf( out, "save=%s bytes=%s\n", r ? "true" : "false", hex( c.saved ).c_str() );
         }
-        else if ( op == "forceoverlap" && t.size() == 3 ) {
+        else if ( op == "forceoverlap" && ( t.size() == 3 || t.size() == 4 ) ) {
             // in the saved image: sh_offset of section j := sh_offset of section i
             Img    m = parse_img( c.saved );
             size_t i = (size_t)num( t[1] ), j = (size_t)num( t[2] );
@@ -321,7 +321,7 @@ static void run_case( const std::vector<Toks>& ops, FILE* out )
                 continue;
             }
             unsigned long long oi = rdf( c.saved, m.shoff + i * m.shent + fo, w, m.msb );
-            wrf( c.saved, m.shoff + j * m.shent + fo, w, m.msb, oi );
+            wrf( c.saved, m.shoff + j * m.shent + fo, w, m.msb, oi + ( t.size() == 4 ? num( t[3] ) : 0 ) );
             fprintf( out, "ok\n" );
         }
         else if ( op == "skew" && t.size() == 3 ) {
